@@ -1,8 +1,292 @@
-//! Family "lender" (stub: not implemented yet).
-use crate::Ctx;
-use serde_json::Value;
+//! Family "lender": the rewindable I/O lenders of sux::utils::lenders driven by
+//! a consume/rewind history (property C20).
+//!
+//! Episode fields: `kind` (which lender), `input` (bytes of the text, for the
+//! line lenders), `items` (list of strings, for FromIntoIterator over a
+//! Vec<String>), `n` (FromIntoIterator over 0..n), `take` (0, 1 or 2 nested
+//! `Lender::take` counts applied at construction), `cap` (BufReader capacity of
+//! kind line_buf), `chunk` / `frames` / `level` (how the harness compresses the
+//! input for the zstd/gzip kinds: a flush every `chunk` bytes closes a block,
+//! `frames` > 1 concatenates independent zstd frames / gzip members).
+//!
+//! Items travel as lists of byte values (a number x of the range kind as [x]).
+//! Nothing is judged here: Trace_Lender decides.
 
-pub fn run(_ep: &Value, _ctx: &mut Ctx) {
-    eprintln!("family lender not implemented");
-    std::process::exit(2);
+use crate::util::*;
+use crate::{guard, Ctx};
+use lender::Lender;
+use serde_json::{json, Value};
+use std::fs::File;
+use std::io::{BufReader, Cursor, Write};
+use std::marker::PhantomData;
+use sux::utils::lenders::*;
+
+trait Enc {
+    fn enc(&self) -> Value;
+}
+impl Enc for str {
+    fn enc(&self) -> Value {
+        Value::Array(self.as_bytes().iter().map(|&b| json!(b)).collect())
+    }
+}
+impl Enc for String {
+    fn enc(&self) -> Value {
+        self.as_str().enc()
+    }
+}
+impl Enc for usize {
+    fn enc(&self) -> Value {
+        json!([*self])
+    }
+}
+
+enum Step {
+    None,
+    Item(Value),
+    Err(String),
+}
+
+/// Object-safe view of a `RewindableIoLender<T>`.
+trait DynL {
+    fn step(&mut self) -> Step;
+    fn rew(self: Box<Self>) -> Result<Box<dyn DynL>, String>;
+}
+
+struct W<T: ?Sized, L>(L, PhantomData<fn(&T)>);
+
+impl<T: Enc + ?Sized + 'static, L: RewindableIoLender<T> + 'static> DynL for W<T, L> {
+    fn step(&mut self) -> Step {
+        match self.0.next() {
+            None => Step::None,
+            Some(Ok(x)) => Step::Item(x.enc()),
+            Some(Err(e)) => Step::Err(e.to_string()),
+        }
+    }
+    fn rew(self: Box<Self>) -> Result<Box<dyn DynL>, String> {
+        match self.0.rewind() {
+            Ok(l) => Ok(Box::new(W::<T, L>(l, PhantomData))),
+            Err(e) => Err(e.to_string()),
+        }
+    }
+}
+
+fn wrap<T: Enc + ?Sized + 'static, L: RewindableIoLender<T> + 'static>(l: L, take: &[usize]) -> Box<dyn DynL> {
+    match take.len() {
+        0 => Box::new(W::<T, _>(l, PhantomData)),
+        1 => Box::new(W::<T, _>(l.take(take[0]), PhantomData)),
+        _ => Box::new(W::<T, _>(l.take(take[0]).take(take[1]), PhantomData)),
+    }
+}
+
+fn bytes_of(v: &Value) -> Vec<u8> {
+    match v.as_array() {
+        Some(a) => a.iter().map(|x| x.as_u64().unwrap() as u8).collect(),
+        None => Vec::new(),
+    }
+}
+
+fn compress(kind: &str, input: &[u8], chunk: usize, frames: usize, level: i32) -> std::io::Result<Vec<u8>> {
+    let one = |part: &[u8]| -> std::io::Result<Vec<u8>> {
+        let pieces: Vec<&[u8]> = if chunk == 0 { vec![part] } else { part.chunks(chunk).collect() };
+        if kind.starts_with("zstd") {
+            let mut e = zstd::stream::write::Encoder::new(Vec::new(), level)?;
+            for p in pieces {
+                e.write_all(p)?;
+                if chunk != 0 {
+                    e.flush()?;
+                }
+            }
+            e.finish()
+        } else {
+            let mut e = flate2::write::GzEncoder::new(Vec::new(), flate2::Compression::new(level.clamp(0, 9) as u32));
+            for p in pieces {
+                e.write_all(p)?;
+                if chunk != 0 {
+                    e.flush()?;
+                }
+            }
+            e.finish()
+        }
+    };
+    if frames <= 1 {
+        return one(input);
+    }
+    let mut out = Vec::new();
+    let per = (input.len() + frames - 1) / frames;
+    if per == 0 {
+        return one(input);
+    }
+    for part in input.chunks(per) {
+        out.extend(one(part)?);
+    }
+    Ok(out)
+}
+
+type ZstdSelf = ZstdLineLender<BufReader<zstd::Decoder<'static, BufReader<File>>>>;
+type GzipSelf = GzipLineLender<BufReader<flate2::read::GzDecoder<BufReader<File>>>>;
+
+/// Builds the lender of the episode. The temporary file (if any) is returned
+/// so that it outlives the lender.
+fn open(ep: &Value) -> anyhow::Result<(Box<dyn DynL>, Option<tempfile::NamedTempFile>)> {
+    let kind = ep["kind"].as_str().unwrap();
+    let take: Vec<usize> = match ep.get("take").and_then(|t| t.as_array()) {
+        Some(a) => a.iter().map(|x| x.as_u64().unwrap() as usize).collect(),
+        None => vec![],
+    };
+    let input = bytes_of(&ep["input"]);
+    let chunk = ep.get("chunk").and_then(|v| v.as_u64()).unwrap_or(0) as usize;
+    let frames = ep.get("frames").and_then(|v| v.as_u64()).unwrap_or(1) as usize;
+    let level = ep.get("level").and_then(|v| v.as_i64()).unwrap_or(3) as i32;
+    let payload = if kind.starts_with("zstd") || kind.starts_with("gzip") {
+        compress(kind, &input, chunk, frames, level)?
+    } else {
+        input
+    };
+    let on_file = kind.ends_with("_file") || kind.ends_with("_path");
+    let mut tmp = None;
+    if on_file {
+        let mut f = tempfile::NamedTempFile::new()?;
+        f.write_all(&payload)?;
+        f.flush()?;
+        tmp = Some(f);
+    }
+    let path = tmp.as_ref().map(|f| f.path().to_path_buf());
+    let l: Box<dyn DynL> = match kind {
+        "line_cursor" => wrap::<str, _>(LineLender::new(Cursor::new(payload)), &take),
+        "line_buf" => {
+            let cap = ep.get("cap").and_then(|v| v.as_u64()).unwrap_or(8192) as usize;
+            wrap::<str, _>(LineLender::new(BufReader::with_capacity(cap.max(1), Cursor::new(payload))), &take)
+        }
+        "line_file" => wrap::<str, _>(LineLender::from_file(File::open(path.unwrap())?), &take),
+        "line_path" => wrap::<str, _>(LineLender::from_path(path.unwrap())?, &take),
+        "zstd_cursor" => wrap::<str, _>(ZstdLineLender::new(Cursor::new(payload))?, &take),
+        "zstd_file" => wrap::<str, _>(ZstdSelf::from_file(File::open(path.unwrap())?)?, &take),
+        "zstd_path" => wrap::<str, _>(ZstdSelf::from_path(path.unwrap())?, &take),
+        "gzip_cursor" => wrap::<str, _>(GzipLineLender::new(Cursor::new(payload))?, &take),
+        "gzip_file" => wrap::<str, _>(GzipSelf::from_file(File::open(path.unwrap())?)?, &take),
+        "gzip_path" => wrap::<str, _>(GzipSelf::from_path(path.unwrap())?, &take),
+        "fromiter" => {
+            let items: Vec<String> = ep["items"]
+                .as_array()
+                .unwrap()
+                .iter()
+                .map(|v| String::from_utf8(bytes_of(v)).expect("items must be valid UTF-8"))
+                .collect();
+            wrap::<String, _>(FromIntoIterator::from(items), &take)
+        }
+        "range" => wrap::<usize, _>(FromIntoIterator::from(0..get_usize(ep, "n")), &take),
+        k => anyhow::bail!("unknown lender kind {k}"),
+    };
+    Ok((l, tmp))
+}
+
+pub fn run(ep: &Value, ctx: &mut Ctx) {
+    let mut hdr = json!({"op": "BEGIN", "fam": "lender", "src": ep.get("src").cloned().unwrap_or(json!("?"))});
+    // episode-level fields the trace specification needs (always present)
+    for (k, d) in [("kind", json!("?")), ("input", json!([])), ("items", json!([])), ("n", json!(0)), ("take", json!([]))] {
+        hdr[k] = ep.get(k).cloned().unwrap_or(d);
+    }
+    ctx.begin(&hdr);
+    ctx.emit(&hdr, "ret", json!({}));
+    let mut l: Option<Box<dyn DynL>> = None;
+    let mut _tmp: Option<tempfile::NamedTempFile> = None;
+    // bookkeeping of observations (used to describe known findings precisely)
+    let mut yielded = 0usize; // items yielded since the lender was opened / last rewound
+    let mut dirty = false; // some rewind happened after at least one item of its pass had been yielded
+    // an upper bound on the number of items of any input, against lenders that never end
+    let cap = ep["input"].as_array().map_or(0, |a| a.len())
+        + ep["items"].as_array().map_or(0, |a| a.len())
+        + ep.get("n").and_then(|v| v.as_u64()).unwrap_or(0) as usize
+        + 8;
+    for op in ep["ops"].as_array().unwrap() {
+        ctx.begin(op);
+        let name = op["op"].as_str().unwrap();
+        let r: Result<Value, String> = match name {
+            "open" => match guard(|| open(ep)) {
+                Ok(Ok((x, t))) => {
+                    l = Some(x);
+                    _tmp = t;
+                    yielded = 0;
+                    dirty = false;
+                    Ok(json!({"r": "ok"}))
+                }
+                Ok(Err(e)) => Ok(json!({"r": "err", "err": e.to_string()})),
+                Err(m) => Err(m),
+            },
+            "next" => match &mut l {
+                Some(x) => guard(|| x.step()).map(|s| match s {
+                    Step::None => json!({"r": "none", "item": []}),
+                    Step::Item(v) => {
+                        yielded += 1;
+                        json!({"r": "item", "item": v})
+                    }
+                    Step::Err(e) => json!({"r": "err", "item": [], "err": e}),
+                }),
+                None => Err("na".into()),
+            },
+            "nexts" | "drain" => match &mut l {
+                Some(x) => {
+                    let c = if name == "nexts" { get_usize(op, "c") } else { usize::MAX };
+                    guard(|| {
+                        let mut res = Vec::new();
+                        let mut end = "more";
+                        let mut err = String::new();
+                        while res.len() < c {
+                            if res.len() > cap {
+                                end = "runaway";
+                                break;
+                            }
+                            match x.step() {
+                                Step::None => {
+                                    end = "none";
+                                    break;
+                                }
+                                Step::Item(v) => res.push(v),
+                                Step::Err(e) => {
+                                    end = "err";
+                                    err = e;
+                                    break;
+                                }
+                            }
+                        }
+                        (res, end, err)
+                    })
+                    .map(|(res, end, err)| {
+                        yielded += res.len();
+                        json!({"res": res, "end": end, "err": err})
+                    })
+                }
+                None => Err("na".into()),
+            },
+            "rewind" => match l.take() {
+                Some(x) => match guard(|| x.rew()) {
+                    Ok(Ok(y)) => {
+                        l = Some(y);
+                        if yielded > 0 {
+                            dirty = true;
+                        }
+                        yielded = 0;
+                        Ok(json!({"r": "ok"}))
+                    }
+                    Ok(Err(e)) => Ok(json!({"r": "err", "err": e})),
+                    Err(m) => Err(m),
+                },
+                None => Err("na".into()),
+            },
+            _ => {
+                eprintln!("lender: unknown op {name}");
+                std::process::exit(2);
+            }
+        };
+        let st = json!({"yielded": yielded, "dirty": dirty});
+        match r {
+            Ok(mut f) => {
+                f["yielded"] = st["yielded"].clone();
+                f["dirty"] = st["dirty"].clone();
+                ctx.emit(op, "ret", f)
+            }
+            Err(m) if m == "na" => ctx.emit(op, "na", st),
+            Err(m) => ctx.emit(op, "panic", json!({"msg": m.chars().take(120).collect::<String>(), "yielded": yielded, "dirty": dirty})),
+        }
+    }
 }
